@@ -5,10 +5,11 @@
 here=$(cd "$(dirname "$0")" && pwd); cd "$here/harness" || exit 2
 T=$(dirname "$(rustup which --toolchain nightly rustc)")/../lib/rustlib/x86_64-unknown-linux-gnu/bin
 out="$here/out/cov"; mkdir -p "$out"; rm -f "$out"/*.profraw
-RUSTFLAGS="-C instrument-coverage" cargo +nightly build --offline --release -p vh-proto -p vh-client --target-dir "$here/harness/target-cov" >/dev/null 2>&1 || exit 2
+LLVM_PROFILE_FILE="$out/build-%p.profraw" RUSTFLAGS="-C instrument-coverage" cargo +nightly build --offline --release -p vh-proto -p vh-client --target-dir "$here/harness/target-cov" >/dev/null 2>&1 || exit 2
 for pr in "vh_parser C01" "vh_parser C02" "vh_parser C09" "vh_parser C13" "vh_values C03" "vh_values C08" "vh_values C12" "vh_values C16" "vh_builders C10" "vh_builders C14" "vh_types C15" "vh_types C17" "vh_client C04" "vh_client C05" "vh_client C06" "vh_client C11" "vh_client C08" "vh_frames C07"; do
   set -- $pr
   LLVM_PROFILE_FILE="$out/$1-$2-%p.profraw" target-cov/release/$1 --prop $2 --seed ${VERIF_SEED:-1} --tier quick --model "$here/lean/.lake/build/bin/imapmodel" --out "$out/$1-$2.json" --shards 4 >/dev/null
 done
+rm -f "$out"/build-*.profraw
 "$T/llvm-profdata" merge -sparse "$out"/*.profraw -o "$out/all.profdata"
 "$T/llvm-cov" report -instr-profile="$out/all.profdata" -object target-cov/release/vh_parser -object target-cov/release/vh_values -object target-cov/release/vh_builders -object target-cov/release/vh_types -object target-cov/release/vh_client -object target-cov/release/vh_frames --ignore-filename-regex='(registry|rustc|vh-proto|vh-client)' | grep -E "imap-proto|tokio-imap|TOTAL" | awk '{printf "%-60s regions=%s missed=%s cover=%s\n", $1, $2, $3, $4}'
